@@ -31,4 +31,9 @@ example : acyclic [(0, 1), (0, 2), (1, 2)] = true := by decide
     sequential order of these sections (hypothesis of SV.TxCache.AddCommute) -/
 theorem addTx_updates_atomic : addTxIndexUpdatesAtomic = true := by decide
 
+/-- the mempool's atomic counters are paired with the chunk-locked map updates: they change iff the map operation reported a
+    change, with no lookup before it (no check-then-act) — the mechanism behind "once all goroutines have finished, CountTx
+    and NumBytes equal the number and total Size of the transactions reachable by hash" -/
+theorem counters_paired_with_map_updates : (hashIndexCountersPaired && senderCounterPaired) = true := by decide
+
 end SV.Facts
